@@ -37,6 +37,32 @@ def fresh_loader():
     return LOADER
 
 
+def check_arity(nn: int, nv: int, na: int, dup: bool) -> bool:
+    """
+    pre: 0 <= nn <= 3 and 0 <= nv <= 3 and 1 <= na <= 2
+    post: POST(_)
+    """
+    # INSERT statements whose number of names / values / declared attributes disagree, names repeated
+    global LAST_DIFF
+    nn = cs(nn, 0, 3); nv = cs(nv, 0, 3); na = cs(na, 1, 2)
+    dup = True if dup else False
+    names = (['x', 'x', 'y'] if dup else ['x', 'y', 'z'])[:nn]
+    ld = fresh_loader()
+    ld.statements = [stmt(L.CreateClassStmt('A', [('x', 'INTEGER'), ('y', 'INTEGER')][:na])),
+                     stmt(L.CreateInstanceStmt('A', ['1', '2', '3'][:nv], names if nn else None))]
+    try:
+        ld.build_metamodel()
+    except ALLOWED:
+        pass
+    except Exception as e:
+        case('arity', nn, nv, na, dup)
+        if isinstance(e, IndexError) and known('C12/named-insert-arity-indexerror'):
+            return None
+        LAST_DIFF = ('undocumented exception from build_metamodel', type(e).__name__, str(e)[:100], names, nv, na); return False
+    case('arity', nn, nv, na, dup)
+    return True
+
+
 def check_value(ti: int, ki: int, named: bool, t2: int, k2: int) -> bool:
     """
     pre: 0 <= ti < NT and 0 <= ki < NK and 0 <= t2 < NT and 0 <= k2 < NK
@@ -67,24 +93,24 @@ def check_value(ti: int, ki: int, named: bool, t2: int, k2: int) -> bool:
     return True
 
 
-NAMES = ['Id', 'x', 'nope']
+NAMES = ['Id', 'x', 'y', 'nope']
 KINDS = ['A', 'B', 'Z']
-ROPS = list(itertools.product(range(3), range(3), range(3), range(3), range(2)))   # skind, tkind, skey, tkey, rows
+ROPS = list(itertools.product(range(3), range(3), range(4), range(4), range(2)))   # skind, tkind, skey, tkey, rows
 NR = len(ROPS)
 
 
 def check_schema(ri: int, ui: int) -> bool:
     """
-    pre: 0 <= ri < NR and 0 <= ui < 9
+    pre: 0 <= ri < NR and 0 <= ui < 12
     post: POST(_)
     """
     # associations / identifiers naming undefined classes or attributes, with and without rows
     global LAST_DIFF
     sk, tk, skey, tkey, rows = ROPS[cs(ri, 0, NR - 1)]
-    ui = cs(ui, 0, 8)
+    ui = cs(ui, 0, 11)
     ld = fresh_loader()
     st = [stmt(L.CreateClassStmt('A', [('Id', 'UNIQUE_ID'), ('x', 'INTEGER')])),
-          stmt(L.CreateClassStmt('B', [('Id', 'UNIQUE_ID'), ('x', 'UNIQUE_ID')])),
+          stmt(L.CreateClassStmt('B', [('Id', 'UNIQUE_ID'), ('y', 'UNIQUE_ID')])),       # x only in A, y only in B
           stmt(L.CreateAssociationStmt('R1', KINDS[sk], 'MC', [NAMES[skey]], '', KINDS[tk], '1', [NAMES[tkey]], '')),
           stmt(L.CreateUniqueStmt(KINDS[ui % 3], 'I1', [NAMES[ui // 3]]))]
     if rows:
@@ -119,19 +145,35 @@ TEXTS = [
     ('bad', "INSERT INTO A VALUES (3, 7);\nCREATE ROP REF_ID R1 FROM X A (x) TO 1 A (Id);\n"),
     ('bad', "INSERT INTO A VALUES (3, 7); INSERT INTO A VALUES (3, 'unterminated);\n"),
     ('bad', "INSERT INTO A VALUES (3, 7);\nCREATE TABLE"),
+    ('ok', "CREATE TABLE Y (q INTEGER);\nINSERT INTO Y VALUES ();\n"),
+    ('bad', "INSERT INTO Y VALUES (, 7) garbage $\n"),
+    ('bad', "INSERT INTO Y (q) VALUES (, 8);\nINSERT INTO Y VALUES (9) (\n"),
 ]
 NTX = len(TEXTS)
 
 
-def check_input_seq(a: int, b: int, c: int) -> bool:
+def stmt_content(stmts):
+    """deep, value-based picture of the accumulated statements"""
+    def fz(v):
+        if isinstance(v, (list, tuple)):
+            return tuple(fz(x) for x in v)
+        return v
+    return [(type(st).__name__,) + tuple(sorted((k, fz(v)) for k, v in vars(st).items())) for st in stmts]
+
+
+SEQ3 = [(a, b, c) for a in range(NTX) for b in range(NTX) for c in range(NTX)][PARAMS.get('shard', 0)::PARAMS.get('nshards', 1)]
+NSEQ3 = len(SEQ3)
+
+
+def check_input_seq(si: int) -> bool:
     """
-    pre: 0 <= a < NTX and 0 <= b < NTX and 0 <= c < NTX
+    pre: 0 <= si < NSEQ3
     post: POST(_)
     """
     # three input() calls with accepted / rejected texts on ONE loader; afterwards the loader
     # builds exactly what a fresh loader builds from the accepted texts alone
     global LAST_DIFF
-    seq = [cs(a, 0, NTX - 1), cs(b, 0, NTX - 1), cs(c, 0, NTX - 1)]
+    seq = list(SEQ3[cs(si, 0, NSEQ3 - 1)])
     with notrace():
         ld = xtuml.ModelLoader()
         ref = xtuml.ModelLoader()
@@ -139,6 +181,11 @@ def check_input_seq(a: int, b: int, c: int) -> bool:
     for k in seq:
         kind, text = TEXTS[k]
         before = list(ld.statements)
+        before_content = stmt_content(ld.statements)
+        try:
+            snap = xtuml.serialize(ld.build_metamodel())
+        except ALLOWED:
+            snap = None
         exc = None
         try:
             with notrace():
@@ -155,6 +202,16 @@ def check_input_seq(a: int, b: int, c: int) -> bool:
             if len(ld.statements) != len(before) or any(x is not y for x, y in zip(ld.statements, before)):
                 case('input', seq)
                 LAST_DIFF = ('rejected input changed the loader', text, len(before), len(ld.statements)); return False
+            if stmt_content(ld.statements) != before_content:
+                case('input', seq)
+                LAST_DIFF = ('rejected input changed the content of an accumulated statement', text, before_content, stmt_content(ld.statements)); return False
+            try:
+                snap2 = xtuml.serialize(ld.build_metamodel())
+            except ALLOWED:
+                snap2 = None
+            if snap2 != snap:
+                case('input', seq)
+                LAST_DIFF = ('a build after the rejected input differs from the build before it', text, snap, snap2); return False
         else:
             accepted.append(text)
     case('input', seq)
